@@ -66,8 +66,9 @@ type Mutation struct {
 
 // NewMutation returns a new Mutation for stashing changes.
 func NewMutation(d Downreser, v dvid.VersionID, mutID uint64) *Mutation {
-	for scale := uint8(1); scale <= d.GetMaxDownresLevel(); scale++ {
-		d.StartScaleUpdate(scale)
+	// (counted in int: a uint8 counter never exceeds a maximum level of 255)
+	for scale := 1; scale <= int(d.GetMaxDownresLevel()); scale++ {
+		d.StartScaleUpdate(uint8(scale))
 	}
 	m := Mutation{
 		d:          d,
